@@ -88,6 +88,8 @@ async def check_tree(ctx, case):
     ctx.count("trees")
     if case.get("pkg"):
         ctx.count("trees_written_with_packages")
+    if any(len(n.get("segs", [])) > 32 or len(n.get("grps", [])) > 32 or len(n.get("des", [])) > 32 for n in T.walk(spec)) or len(spec) > 32:
+        ctx.count("trees_with_a_very_wide_node")
     if spec and "line" in spec[0]:
         ctx.count("trees_with_line_indexes")
     nodes = list(T.walk(spec))
@@ -231,6 +233,21 @@ async def check_sequence(ctx, case):
 def gen_case(ctx, rng, p_invalid=0.0):
     gen = T.TreeGen(rng, parts_factory(rng, p_invalid=p_invalid), max_depth=2 if ctx.quick else rng.choice([2, 3, 4]), max_branch=3 if ctx.quick else rng.choice([3, 4, 5]))
     spec = gen.tree()
+    if rng.random() < 0.04:
+        # a very wide node: dozens of siblings below one group / segment / at the root
+        which = rng.choice(["segments", "elements", "roots", "groups"])
+        n = rng.choice([33, 40, 47, 65, 70])
+        if which == "segments":
+            spec[0]["segs"] = [gen.segment() for _ in range(n)]
+        elif which == "groups":
+            spec[0]["grps"] = [gen.group(0) for _ in range(n)]
+        elif which == "roots":
+            spec = spec + [gen.group(0) for _ in range(n)]
+        else:
+            seg = gen.segment()
+            seg["des"] = [gen.data_element() for _ in range(n)]
+            spec[0]["segs"].append(seg)
+        spec[0]["x"] = T.make_expression([["MUSS", None]], rng)
     if rng.random() < 0.4:
         T.assign_line_indexes(spec, rng)
     pkg = T.abbreviate_spec(spec, rng) if rng.random() < 0.35 else {}
